@@ -440,8 +440,132 @@ Proof.
   fold (in_manifest phases o). destruct (in_manifest phases o); cbn; [constructor|]; exact IH.
 Qed.
 
-(** * The template stage *)
+(** * The template stage (as implemented since commit 10a6940) *)
+Section SortByLaws.
+  Context {A : Type} (key : A -> N).
+
+  Lemma insert_by_perm x l : Permutation (insert_by key x l) (x :: l).
+  Proof.
+    induction l as [|y l IH]; cbn; [reflexivity|].
+    destruct (key x <? key y); [reflexivity|]. rewrite IH. apply perm_swap.
+  Qed.
+
+  Lemma sort_by_perm l : Permutation (sort_by key l) l.
+  Proof. induction l as [|x l IH]; cbn; [reflexivity|]. rewrite insert_by_perm. now constructor. Qed.
+
+  Lemma insert_by_comm x y l :
+    key x <> key y \/ x = y ->
+    insert_by key x (insert_by key y l) = insert_by key y (insert_by key x l).
+  Proof.
+    intros [Hne| ->]; [|reflexivity].
+    induction l as [|z l IH]; cbn.
+    - destruct (N.ltb_spec (key x) (key y)), (N.ltb_spec (key y) (key x)); try lia; reflexivity.
+    - destruct (N.ltb_spec (key y) (key z)), (N.ltb_spec (key x) (key z)); cbn;
+        repeat match goal with |- context [?a <? ?b] => destruct (N.ltb_spec a b) end;
+        try lia; try reflexivity.
+      now rewrite IH.
+  Qed.
+
+  (** Elements with the same key are the same element (for map entries: paths pairwise different). *)
+  Definition key_inj_on (l : list A) : Prop := forall x y, In x l -> In y l -> key x = key y -> x = y.
+
+  Lemma sort_by_perm_invariant l l' :
+    Permutation l l' -> key_inj_on l -> sort_by key l = sort_by key l'.
+  Proof.
+    unfold sort_by.
+    induction 1 as [|x l l' Hp IH|x y l|l l' l'' Hp1 IH1 Hp2 IH2]; intros Hinj; cbn.
+    - reflexivity.
+    - rewrite IH; [reflexivity|]. intros a b Ha Hb. apply Hinj; now right.
+    - apply insert_by_comm. destruct (N.eq_dec (key y) (key x)) as [E|E]; [right|now left].
+      apply Hinj; cbn; auto.
+    - rewrite IH1 by assumption. apply IH2. intros a b Ha Hb.
+      apply Hinj; eapply Permutation_in; try eassumption; now apply Permutation_sym.
+  Qed.
+End SortByLaws.
+
+Lemma nodup_fst_inj (fs : filelist) : NoDup (map fst fs) -> key_inj_on fst fs.
+Proof.
+  induction fs as [|[k v] fs IH]; cbn; intros Hnd x y Hx Hy E; [contradiction|].
+  inversion Hnd as [|? ? Hnin Hnd']; subst.
+  destruct Hx as [<-|Hx], Hy as [<-|Hy]; try reflexivity.
+  - exfalso. apply Hnin. cbn in E. rewrite E. now apply in_map.
+  - exfalso. apply Hnin. cbn in E. rewrite <- E. now apply in_map.
+  - now apply IH.
+Qed.
+
+Lemma filter_perm {A} (f : A -> bool) l l' : Permutation l l' -> Permutation (filter f l) (filter f l').
+Proof.
+  induction 1 as [|x l l' Hp IH|x y l|l l' l'' Hp1 IH1 Hp2 IH2]; cbn.
+  - reflexivity.
+  - destruct (f x); [now constructor|assumption].
+  - destruct (f x), (f y); try reflexivity. apply perm_swap.
+  - now rewrite IH1.
+Qed.
+
 Section TemplateLaws.
+  Variable is_template : N -> bool.
+  Variable strip : N -> N.
+  Variable exec : N -> filelist -> option N.
+
+  Lemma canon_perm_invariant fs fs' :
+    Permutation fs fs' -> NoDup (map fst fs) -> canon fs = canon fs'.
+  Proof. intros Hp Hnd. apply sort_by_perm_invariant; [assumption|now apply nodup_fst_inj]. Qed.
+
+  Lemma template_paths_perm_invariant fs fs' :
+    Permutation fs fs' -> template_paths is_template fs = template_paths is_template fs'.
+  Proof.
+    intros Hp. apply sort_by_perm_invariant.
+    - apply filter_perm. now apply Permutation_map.
+    - intros x y _ _ E. exact E.
+  Qed.
+
+  (** However Go enumerates pkg.Files, the stage computes the same result: no hypothesis on what
+      templates read or write is needed any more. *)
+  Theorem templates_order_independent fs fs' :
+    Permutation fs fs' -> NoDup (map fst fs) ->
+    render_templates_fixed is_template strip exec fs = render_templates_fixed is_template strip exec fs'.
+  Proof.
+    intros Hp Hnd. unfold render_templates_fixed.
+    now rewrite (canon_perm_invariant _ _ Hp Hnd), (template_paths_perm_invariant _ _ Hp).
+  Qed.
+
+  (** What is executed: exactly the packaged files that are named like templates, each once. *)
+  Theorem executed_are_packaged fs p :
+    In p (template_paths is_template fs) <-> In p (map fst fs) /\ is_template p = true.
+  Proof.
+    unfold template_paths. split.
+    - intros H. apply (Permutation_in _ (sort_by_perm _ _)) in H. apply filter_In in H. exact H.
+    - intros H. apply (Permutation_in _ (Permutation_sym (sort_by_perm _ _))). now apply filter_In.
+  Qed.
+
+  Theorem executed_once fs : NoDup (map fst fs) -> NoDup (template_paths is_template fs).
+  Proof.
+    intros Hnd. unfold template_paths.
+    apply (Permutation_NoDup (Permutation_sym (sort_by_perm _ _))). now apply NoDup_filter.
+  Qed.
+
+  (** An output is never picked up as a template: a path that exists only because a template wrote
+      it (it was not packaged) is not executed, however it is named. *)
+  Corollary output_never_executed fs q :
+    ~ In (strip q) (map fst fs) -> ~ In (strip q) (template_paths is_template fs).
+  Proof. intros Hnin H. apply executed_are_packaged in H. tauto. Qed.
+End TemplateLaws.
+
+(** The two former witnesses under the fixed stage: one result for both enumerations (a.yaml gets
+    the packaged b.yaml), and the double-suffix package simply renders. *)
+Example fixed_witness_values :
+  at_path (render_templates_fixed Witness.is_template Witness.strip Witness.exec_fixed Witness.enum1) Witness.A_YAML
+    = Some (Some Witness.STATIC) /\
+  at_path (render_templates_fixed Witness.is_template Witness.strip Witness.exec_fixed Witness.enum2) Witness.A_YAML
+    = Some (Some Witness.STATIC) /\
+  at_path (render_templates_fixed Witness.is_template Witness.strip Witness.exec_fixed Witness.enum2) Witness.B_YAML
+    = Some (Some Witness.RENDERED) /\
+  at_path (render_templates_fixed InsertWitness.is_template InsertWitness.strip InsertWitness.exec_fixed
+             InsertWitness.enum) InsertWitness.C_TMPL = Some (Some 20).
+Proof. repeat split; reflexivity. Qed.
+
+(** * The template stage before commit 10a6940 (historical record of the fixed defect) *)
+Section TemplateLawsV0.
   Variable is_template : N -> bool.
   Variable strip : N -> N.
   Variable exec : N -> fmap -> option N.
@@ -515,18 +639,18 @@ Section TemplateLaws.
     - eapply req_trans; [apply IH1, H|]. apply IH2, req_refl.
   Qed.
 
-  (** Under independence the iteration order of the file map cannot matter. *)
-  Theorem templates_order_independent o1 o2 m :
+  (** Under independence the iteration order of the file map could not matter even then. *)
+  Theorem v0_templates_order_independent o1 o2 m :
     Permutation o1 o2 ->
-    forall k, at_path (render_templates is_template strip exec o1 m) k =
-              at_path (render_templates is_template strip exec o2 m) k.
+    forall k, at_path (render_templates_v0 is_template strip exec o1 m) k =
+              at_path (render_templates_v0 is_template strip exec o2 m) k.
   Proof.
     intros Hp k. pose proof (render_perm o1 o2 Hp (Some m) (Some m) (req_refl _)) as H.
-    unfold render_templates.
+    unfold render_templates_v0.
     destruct (fold_left tstep o1 (Some m)), (fold_left tstep o2 (Some m)); cbn in *; try tauto.
     now rewrite H.
   Qed.
-End TemplateLaws.
+End TemplateLawsV0.
 
 (** The hypotheses are satisfiable: templates with constant output. *)
 Example independence_satisfiable :
@@ -540,11 +664,11 @@ Qed.
 
 (** Without independence the claim is false: the F-C13 witness renders differently under two
     iteration orders of the very same file map. *)
-Theorem templates_refuted :
+Theorem v0_templates_refuted :
   exists is_template strip exec files order1 order2 k,
     Permutation order1 order2 /\ NoDup order1 /\
-    at_path (render_templates is_template strip exec order1 files) k <>
-    at_path (render_templates is_template strip exec order2 files) k.
+    at_path (render_templates_v0 is_template strip exec order1 files) k <>
+    at_path (render_templates_v0 is_template strip exec order2 files) k.
 Proof.
   exists Witness.is_template, Witness.strip, Witness.exec, Witness.files,
          Witness.order1, Witness.order2, Witness.A_YAML.
@@ -557,18 +681,18 @@ Proof.
 Qed.
 
 (** What the two orders give: the packaged b.yaml or the rendered one. *)
-Example templates_refuted_values :
-  at_path (render_templates Witness.is_template Witness.strip Witness.exec Witness.order1 Witness.files) Witness.A_YAML
+Example v0_templates_refuted_values :
+  at_path (render_templates_v0 Witness.is_template Witness.strip Witness.exec Witness.order1 Witness.files) Witness.A_YAML
     = Some (Some Witness.STATIC) /\
-  at_path (render_templates Witness.is_template Witness.strip Witness.exec Witness.order2 Witness.files) Witness.A_YAML
+  at_path (render_templates_v0 Witness.is_template Witness.strip Witness.exec Witness.order2 Witness.files) Witness.A_YAML
     = Some (Some Witness.RENDERED).
 Proof. split; reflexivity. Qed.
 
 (** Entries created during the range may or may not be visited: a template whose output name is
     again a template name makes the render succeed or fail depending on that. *)
-Theorem templates_refuted_insert :
-  render_templates InsertWitness.is_template InsertWitness.strip InsertWitness.exec
+Theorem v0_templates_refuted_insert :
+  render_templates_v0 InsertWitness.is_template InsertWitness.strip InsertWitness.exec
                    InsertWitness.order_skipped InsertWitness.files <> None /\
-  render_templates InsertWitness.is_template InsertWitness.strip InsertWitness.exec
+  render_templates_v0 InsertWitness.is_template InsertWitness.strip InsertWitness.exec
                    InsertWitness.order_produced InsertWitness.files = None.
 Proof. split; vm_compute; [discriminate|reflexivity]. Qed.
